@@ -3,7 +3,7 @@ from cfg import Inconclusive, op_place, show, walk, strip_casts
 from common import (atomic_op, calls_to, callee, closure_creations, closure_consumer, field_chain, fn_of,
                     find_fn, get_fn, head_sources, peel, site, guards_of, field_assigns, field_borrows,
                     field_reads, is_diverging, ret_aggregates)
-from common import bool_param, is_arg, spawn_closures, enum_fn_table
+from common import bool_param, is_arg, spawn_closures, enum_fn_table, GuardStates
 from props.c09 import classify
 from props.c19 import is_worker_field, canon_atom
 
@@ -169,6 +169,20 @@ def rule_stale_guard(ctx):
 
 def rule_stream_switch(ctx):
     ti = get_fn(ctx.facts, "nucleo", TICK_INNER)
+    # the cancelling phase (the one that switches the worker to a new stream; tick sets state = Fresh right after it,
+    # whatever it returns) must ALWAYS get hold of the worker: a timed-out lock attempt may only happen when
+    # `canceled == false`.  Otherwise the worker is never switched, no `cleared` run is started, and the stale-run
+    # guard (state == Fresh by then) lets the finished OLD run into the new stream's snapshot.
+    gs = GuardStates(ti)
+    bp = bool_param(ti)
+    for a_, b_ in gs.failed_edges:
+        conds = [(g[3], g[2]) for g in guards_of(ti, a_)]
+        not_cancel = any(is_arg(e_, bp) and vals == [0] for e_, vals in conds)
+        if not_cancel:
+            ctx.ok(site(ti, a_), "a lock attempt can time out only in the non-cancelling phase")
+        else:
+            ctx.violation(TICK_INNER + "|cancel-lock|1", site(ti, a_),
+                          "the cancelling phase can give up on the worker lock (timed-out try-lock reachable with canceled == true): tick marks the state Fresh anyway, the worker keeps its old stream and the old run's results are installed after the restart")
     spawns = [(bi, t) for bi, t in ti.calls(lambda t: callee(t) == "rayon::ThreadPool::spawn")]
     if len(spawns) != 1:
         raise Inconclusive("expected one spawn")
